@@ -7,6 +7,8 @@
 import GfsModel.Disk
 import GfsProofs.DiskLemmas
 import GfsProofs.ListLemmas
+import GfsGen.Facts
+import GfsModel.ExpectedSrc
 
 namespace Gfs.Props.C06
 open Gfs Gfs.Spec Gfs.Proofs
@@ -71,5 +73,10 @@ theorem C06_cover_partial (entries : List Entry) (arg : Bytes) (o : ListOpts) (h
   · intro it hit
     obtain ⟨e, he, rfl⟩ := List.mem_map.mp hit
     exact ht e (List.mem_filter.mp he).1
+
+/-- the declarations of /repo this property's model and specification were written from are,
+    on this run, the ones the model was last aligned with (digest of their comment- and
+    layout-insensitive fingerprints, re-extracted by tools/gofacts) -/
+theorem C06_source : Gfs.Gen.sourceDigestC06 = Gfs.expectedSourceDigestC06 := by decide
 
 end Gfs.Props.C06
